@@ -565,19 +565,30 @@ func runC08(c *Ctx) {
 	}
 	// a raw key carries exactly one key representation — the patch validator accepts exactly one of publicKeyJwk /
 	// publicKeyBase58 (C13.T2): no path of the builder writes both members, every accepting path writes one
-	if prk := c.Fn(pST+"/doc", "populateRawPublicKey"); prk != nil {
-		c.Analysed(prk)
-		var jwkW, b58W []*ssa.MapUpdate
-		forEachInstr(prk, func(in ssa.Instruction) {
+	// (the builder is found by what it does: the function of the doc package that writes the two members)
+	var prk *ssa.Function
+	var jwkW, b58W []*ssa.MapUpdate
+	for _, f := range c.Funcs {
+		if pkgPathOf(f) != modPkg+pST+"/doc" {
+			continue
+		}
+		var jw, bw []*ssa.MapUpdate
+		forEachInstr(f, func(in ssa.Instruction) {
 			if mu, ok := in.(*ssa.MapUpdate); ok {
 				switch unquote(c.Path(mu.Key, nil)) {
 				case "publicKeyJwk":
-					jwkW = append(jwkW, mu)
+					jw = append(jw, mu)
 				case "publicKeyBase58":
-					b58W = append(b58W, mu)
+					bw = append(bw, mu)
 				}
 			}
 		})
+		if len(jw)+len(bw) > 0 && (prk == nil || len(jw)+len(bw) > len(jwkW)+len(b58W)) {
+			prk, jwkW, b58W = f, jw, bw
+		}
+	}
+	if prk != nil {
+		c.Analysed(prk)
 		both := false
 		for _, a := range jwkW {
 			for _, b := range b58W {
